@@ -67,7 +67,10 @@ def _names(draw, raw=False, long_ok=True, simple=False):
                                      ".trashinfo", "x.trashinfo", "a_1", "foo", "foo_1", "...", "....",
                                      "a.trashinfo.d",
                                      "Path=x", "[Trash Info]", "%", "%41", "a%2Fb", "*", "?",
-                                     "[a]", "\n", "a\nb", "a\rb", "\\", "$HOME", "`x`"]))
+                                     "[a]", "\n", "a\nb", "a\rb", "\\", "$HOME", "`x`",
+                                     # names that look like keys of a .trashinfo once their newline is un-escaped
+                                     "r\nDeletionDate=2001-01-01T00:00:00", "r\nPath=x", "x%0ADeletionDate=1999-01-01T00:00:00",
+                                     "c++", "a+b"]))
     chars = draw(st.lists(name_chars(raw), min_size=1, max_size=8))
     s = "".join(chars)
     if not _valid_name(s):
